@@ -416,8 +416,9 @@ class BlockGen:
     if r < 0.92:
       s.features.add('int-binop')
       op = rng.choice(['Add', 'Sub', 'Mul', 'And', 'Or', 'Xor', 'LShift', 'RShift'])
-      a = s.gen_int(maxbits, d - 1)
-      b = ('lit', rng.randrange(0, 6)) if op in ('LShift', 'RShift') else s.gen_int(maxbits, d - 1)
+      mb = min(maxbits, 20)      # folded constants stay far below 2^49 (the float-log2 literal-width defect is tested in its own section)
+      a = s.gen_int(mb, d - 1)
+      b = ('lit', rng.randrange(0, 6)) if op in ('LShift', 'RShift') else s.gen_int(mb, d - 1)
       return ('bin', op, a, b)
     if r < 0.97:
       s.features.add('int-ifexp')
@@ -674,9 +675,13 @@ Definition ok_runtime (c : case) : bool := forallb (fun r => res_eqb out_eqb (mo
 (* the property on the real observations: accepted, cast-free, shift amounts as wide as the shifted value => no ValueError *)
 Definition ok_noerror (c : case) : bool :=
   negb (is_some (creal c) && ccastfree c && is_some (check_block (only 0) (cG c) (cb c)) && existsb (fun r => is_evalue (snd r)) (cruns c)).
+(* strict is a restriction of impl: whatever it accepts, impl accepts with the same annotations *)
+Definition ok_mono (c : case) : bool :=
+  match check_block strict (cG c) (cb c) with Some ws => verdict_eqb (check_block impl (cG c) (cb c)) (Some ws) | None => true end.
 (* consequence of the soundness theorem, evaluated: strict acceptance => the model raises no ValueError *)
 Definition ok_strict (c : case) : bool :=
   negb (ccastfree c && is_some (check_block strict (cG c) (cb c)) && existsb (fun r => is_evalue (model_run c (fst r))) (cruns c)).
+Definition ok_strict_acc (c : case) : bool := negb (ccastfree c && is_some (check_block strict (cG c) (cb c))).
 Definition rule_rejects (k : nat) (c : case) : bool := negb (is_some (check_block (only k) (cG c) (cb c))).
 Definition nr1 c := negb (rule_rejects 1 c).  Definition nr2 c := negb (rule_rejects 2 c).  Definition nr3 c := negb (rule_rejects 3 c).
 Definition nr4 c := negb (rule_rejects 4 c).  Definition nr5 c := negb (rule_rejects 5 c).  Definition nr6 c := negb (rule_rejects 6 c).
@@ -787,7 +792,7 @@ def check_cases(ctx, cases, section, lit_attr=None):
   if not live: return
   terms = [case_term(c) for c in live]
   RULES = [1, 2, 3, 4, 5, 6, 7, 10, 11]
-  res = coq_multi(ctx, section, terms, ['ok_verdict', 'ok_runtime', 'ok_noerror', 'ok_strict'] + [f'nr{k}' for k in RULES])
+  res = coq_multi(ctx, section, terms, ['ok_verdict', 'ok_runtime', 'ok_noerror', 'ok_strict', 'ok_mono', 'ok_strict_acc'] + [f'nr{k}' for k in RULES])
   rejecting = {i: [k for k in RULES if i in set(res[f'nr{k}'])] for i in range(len(live))}
   def cause_of(i):
     """the extra checks of Typing.v that (each on its own) would have rejected the block; the key uses the first"""
@@ -839,6 +844,10 @@ def check_cases(ctx, cases, section, lit_attr=None):
     ctx.violation(f'C10:soundness-instance:{hashlib.sha1(c.body.encode()).hexdigest()[:10]}',
                   f'instance of theorem tc_sound fails when evaluated (strict checker accepts, model evaluation raises ValueError): {c.body[-300:]}',
                   replay_of(c), found_input=True)
+  for i in res['ok_mono']:
+    c = live[i]
+    ctx.violation(f'C10:model-mono:{hashlib.sha1(c.body.encode()).hexdigest()[:10]}',
+                  f'check_block strict accepts but check_block impl does not give the same annotations: {c.body[-300:]}', replay_of(c), found_input=True)
   for i, c in enumerate(live):
     ok = i not in res['ok_verdict'] and i not in res['ok_runtime']
     nerr = sum(1 for ins, sim, pr in c.runs if sim[0] == 'err')
@@ -850,7 +859,7 @@ def check_cases(ctx, cases, section, lit_attr=None):
   ctx.extra[f'{section}_runs'] = sum(len(c.runs) for c in live)
   ctx.extra[f'{section}_probe_events'] = sum(len(pr[1]) for c in live for ins, sim, pr in c.runs if pr[0] == 'ok')
   ctx.extra[f'{section}_nodes_compared'] = sum(len(c.tc[1]) for c in live if c.tc[0] == 'accept')
-  ctx.extra[f'{section}_strict_accepted_castfree'] = None
+  ctx.extra[f'{section}_strict_accepted_castfree'] = len(res['ok_strict_acc'])
   return live, res
 
 # ------------------------------------------------------------------ sections
@@ -929,6 +938,7 @@ def directed_cases(ctx):
     ('S6 zext to 1024 bits',                    [A(0, ('lsig', o1, ()), ('red', 'ROr', ('zext', 1024, S(a))))]),
     ('S7 temporary explicit then int',          [('if', 0, bit0, [A(1, ('ltmp', 0), S(a2))], [A(2, ('ltmp', 0), L(3))]), A(3, ('lsig', o, ()), ('tmp', 0))]),
     ('S10 stale implicit branch',               [A(0, ('lsig', o2, ()), ('if', bit0, ('bin', 'Add', L(1), L(2)), S(a)))]),
+    ('S11 literal re-enforced below its width',  [A(0, ('lsig', o1, ()), ('bin', 'Add', L(1), ('bin', 'Sub', L(0), ('bin', 'And', L(0), L(5)))))]),
     ('shift by narrower signal (exempt)',       [A(0, ('lsig', o, ()), ('bin', 'LShift', S(a), S(c4)))]),
     ('shift by too large literal (exempt)',     [A(0, ('lsig', o, ()), ('bin', 'LShift', S(a), L(300)))]),
     ('cast of narrower signal (exempt)',        [A(0, ('lsig', o, ()), ('cast', 8, S(c4)))]),
@@ -986,6 +996,6 @@ def main(ctx):
   except Exception as e:
     ctx.note('correspondence crashed: ' + traceback.format_exc()[-1500:])
     ctx.violation('C10:harness-crash', f'correspondence could not run: {e!r}', {'traceback': traceback.format_exc()}, found_input=False)
-  return ctx.finish(rule='(1) literals 2^k-1,2^k,2^k+1 (k<=70/80) as a Number node, as a loop bound and against a k-bit signal; (2) 28 fixed blocks, one per checker rule / missing check; '
+  return ctx.finish(rule='(1) literals 2^k-1,2^k,2^k+1 (k<=70/80) as a Number node, as a loop bound and against a k-bit signal; (2) 29 fixed blocks, one per checker rule / missing check; '
                          '(3) random type-directed update blocks (1-4 statements, depth<=3, 2-4 inputs and 2-4 outputs of Bits/bitstruct type, wildness 0-25%) each run on 6-8 random inputs; '
                          'distinct = distinct block texts; all non-trivial (every block is type-checked by the real passes, simulated and probed)')
